@@ -317,7 +317,89 @@ def build_extra():
     c01.pid = "C16c"
     c01.replay_pid = "C01"
     c01.only_verify = ["EventManager._run_handlers"]
-    return [c, c01, state_machine_set()]
+    # device attribute `enabled` (shots, ball holds, ...): every change is announced, persisted or not (C11's mixin
+    # contracts EN1/EN2, restricted)
+    from . import C11
+    ce = ContractSet("C16e", "enabled flag of mode devices is announced")
+    ce.strings = True
+    C11.mixin_part(ce)
+    ce.replay_pid = "C11"
+    ce.only_verify = ["EnableDisableMixin.enable", "EnableDisableMixin.disable"]
+    return [c, c01, state_machine_set(), ce, resubscribe_set()]
+
+
+DRV = "mpf/devices/driver.py"
+SETCTL = "mpf/core/settings_controller.py"
+
+
+def resubscribe_set():
+    """users of evaluate_and_subscribe outside the template code: a value derived from a template is re-derived on every
+    notification BY THE FUNCTION THAT DERIVES IT (one-shot futures: the done-callback must be that very function); a
+    setting is read from its machine variable on every access (the variable's change is what wakes subscribers)"""
+    C = ContractSet("C16r", "template-driven values are re-derived on every change")
+    C.strings = False
+    C.cls("SystemWideDevice", fields={})
+    C.cls("FutureI", fields={})
+    C.ext("FutureI.add_done_callback", model=lambda I, env, a, k: (emit(I, "subscribed", cb=a[0]), NONE)[1],
+          trusted_reason="asyncio.Future.add_done_callback: one-shot notification")
+    C.cls("TemplateI", fields={})
+
+    def eval_sub(I, env, a, k):
+        v = VInt(z3.Int(I.fresh_name("template_value")))
+        emit(I, "evaluated", template=env["self"].ref, value=v)
+        return VTuple([v, I.fresh(ObjS("FutureI"), I.fresh_name("subscription"))])
+    C.ext("TemplateI.evaluate_and_subscribe", model=eval_sub,
+          trusted_reason="BaseTemplate.evaluate_and_subscribe (C16 main set): value + future completed on the next change")
+    C.cls("Driver", file=DRV, bases=["SystemWideDevice"], fields=dict(
+        config=Rec(default_pulse_ms=Opt(ObjS("TemplateI")), default_timed_enable_ms=Opt(ObjS("TemplateI"))),
+        _pulse_ms=Int, _timed_enable_ms=Int,
+        machine=ObjS("MachineController", config=Rec(mpf=Rec(default_pulse_ms=Int, default_timed_enable_ms=Int)))))
+
+    def rearmed(I, fname, field, cfgkey):
+        this = I.frames[0].env["self"].ref
+        ev = events_named(I, "evaluated")
+        sub = events_named(I, "subscribed")
+        if len(ev) != 1 or len(sub) != 1:
+            return VBool(False)
+        tmpl = I.force(I.read_field(I.force(I.read_field(this, "config")).ref, I.pyconst(I.force(cfgkey))))
+        cb = I.force(sub[0].args["cb"])
+        ok = cb.tag == "fn" and cb.kind == "bound" and cb.name == I.pyconst(I.force(fname)) and cb.obj is this and \
+            tmpl.tag == "obj" and ev[0].args["template"] is tmpl.ref
+        return VBool(z3.And(z3.BoolVal(bool(ok)), I.eq(I.read_field(this, I.pyconst(I.force(field))), ev[0].args["value"])))
+    C.helpers["rederived_and_rearmed"] = rearmed
+    C.helpers["n_subscribed"] = lambda I: VInt(len(events_named(I, "subscribed")))
+    C.trace_helpers = {"rederived_and_rearmed", "n_subscribed"}
+    for fn_, fld, key in (("_calculate_pulse_ms_placeholder", "_pulse_ms", "default_pulse_ms"),
+                          ("_calculate_timed_enable_ms_placeholder", "_timed_enable_ms", "default_timed_enable_ms")):
+        C.fn("Driver." + fn_, params=dict(args=Opaque("Args")),
+             ensures=[("DT1: a templated default is evaluated from ITS template, stored in its field, and the one-shot "
+                       "subscription calls THIS function again on the next change (so the value never goes stale)",
+                       "implies(self.config['%s'] is not None, rederived_and_rearmed('%s', '%s', '%s'))" % (key, fn_, fld, key)),
+                      ("a constant default subscribes to nothing",
+                       "implies(self.config['%s'] is None, n_subscribed() == 0 and self.%s == "
+                       "self.machine.config['mpf']['%s'])" % (key, fld, key))],
+             modifies=["self._pulse_ms", "self._timed_enable_ms"], raises={}, skip_frame=True)
+
+    # ---- settings are read from their machine variable on every access
+    C.cls("MpfController", fields={})
+    C.cls("VarsI", fields=dict(exists=Bool, value=Int))
+    C.ext("VarsI.is_machine_var", model=lambda I, env, a, k: I.read_field(env["self"].ref, "exists"),
+          trusted_reason="MachineVariables.is_machine_var")
+    C.ext("VarsI.get_machine_var", model=lambda I, env, a, k: I.read_field(env["self"].ref, "value"),
+          trusted_reason="MachineVariables.get_machine_var: the CURRENT value")
+    C.cls("SettingEntry", fields=dict(machine_var=Str, default=Const(1),
+                                      values=Init(lambda I, n: I.new_dict(((1, VStr("a")), (2, VStr("b"))), n))))
+    C.cls("SettingsController", file=SETCTL, bases=["MpfController"], fields=dict(
+        _settings=Init(lambda I, n: I.new_dict((("known", I.fresh(ObjS("SettingEntry"), n + "[known]")),), n)),
+        machine=ObjS("MachineController", variables=ObjS("VarsI"))))
+    CUR = "self.machine.variables.value"
+    C.fn("SettingsController.get_setting_value", params=dict(setting_name=Const("known")), result=Int,
+         ensures=[("SV1: a setting's value is read from its machine variable on EVERY access: the current value of the "
+                   "variable if it is a valid one, else the default - however the variable was written (service menu, "
+                   "variable_player, BCP) and whatever an earlier access returned",
+                   "result == (%s if (self.machine.variables.exists and (%s == 1 or %s == 2)) else 1)" % (CUR, CUR, CUR))],
+         modifies=[], raises={}, skip_frame=True)
+    return C
 
 
 SM = "mpf/devices/state_machine.py"
